@@ -284,20 +284,33 @@ def region_calls(body, region):
 
 
 def ok_return_sites(body):
-    """definitions of _0 that are not the `?` error path (from_residual) — the success exits"""
+    """definitions of _0 that are not the `?` error path (from_residual) — the success exits.  A definition that only
+    hands over a Result computed elsewhere (`_0 = move r`: the join of a spliced helper's Ok and Err returns) stands
+    for the definitions of that Result"""
     d, _ = body.defs()
     out = []
-    for site, kind, payload in d.get(0, []):
-        if kind == "call":
-            c = callee_of(payload)
-            if c and call_matches(c, "FromResidual::from_residual", "::from_residual"):
+    seen = set()
+
+    def visit(l, depth):
+        for site, kind, payload in d.get(l, []):
+            if (l, site) in seen:
                 continue
-        if kind == "assign":
-            e = body._expr_of_def((site, kind, payload))
-            if e.k == "agg" and e.x.get("variant") == "Err" and e.x.get("adt", "").endswith("result::Result"):
-                continue      # `return Err(..)`: an explicit error exit is not a success exit either
-        if site.bb in body.normal_blocks():
-            out.append((site, kind, payload))
+            seen.add((l, site))
+            if kind == "call":
+                c = callee_of(payload)
+                if c and call_matches(c, "FromResidual::from_residual", "::from_residual"):
+                    continue
+            if kind == "assign":
+                if depth < 6 and payload["rv"] == "use" and payload["op"].get("k") in ("move", "copy") and not payload["op"]["pl"]["p"] \
+                        and d.get(payload["op"]["pl"]["l"]) and body.locals[payload["op"]["pl"]["l"]]["ty"].startswith("std::result::Result<"):
+                    visit(payload["op"]["pl"]["l"], depth + 1)
+                    continue
+                e = body._expr_of_def((site, kind, payload))
+                if e.k == "agg" and e.x.get("variant") == "Err" and e.x.get("adt", "").endswith("result::Result"):
+                    continue      # `return Err(..)`: an explicit error exit is not a success exit either
+            if site.bb in body.normal_blocks():
+                out.append((site, kind, payload))
+    visit(0, 0)
     return out
 
 
